@@ -97,15 +97,62 @@ struct S2 {
 }
 impl Fam for S2 {}
 
-/// family 3: an array with two-digit indices, a compound leaf and a string long enough to exceed 128 bytes
+/// family 3: an `Option` sub-tree with two leaves followed by siblings, an array with two-digit indices, a compound
+/// leaf, a string long enough to exceed 128 bytes, and an enum with a skipped variant declared before retained ones
+#[derive(Tree, Clone, Default)]
+struct Pair3 {
+    p: Leaf<u8>,
+    q: Leaf<u8>,
+}
+
+#[derive(Tree, Clone, Default)]
+enum Mode3 {
+    #[default]
+    Off,
+    #[tree(skip)]
+    Cal(u8),
+    A(Leaf<u8>),
+    B(Leaf<u8>),
+}
+
 #[derive(Tree, Clone, Default)]
 struct S3 {
+    o: Option<Pair3>,
     lut: [Leaf<u8>; 12],
     trip: Leaf<[i16; 3]>,
     text: Leaf<heapless::String<256>>,
     k: Leaf<u8>,
+    mode: Mode3,
 }
-impl Fam for S3 {}
+impl Fam for S3 {
+    fn special(&mut self, cmd: &str) -> bool {
+        if cmd == "optnone" {
+            self.o = None;
+            true
+        } else if let Some(n) = cmd.strip_prefix("optsome") {
+            match n.parse::<u8>() {
+                Ok(n) => {
+                    self.o = Some(Pair3 { p: Leaf(n), q: Leaf(n) });
+                    true
+                }
+                Err(_) => false,
+            }
+        } else if let Some(m) = cmd.strip_prefix("mode") {
+            let (v, n) = m.split_at(1.min(m.len()));
+            let n: u8 = n.parse().unwrap_or(0);
+            self.mode = match v {
+                "o" => Mode3::Off,
+                "c" => Mode3::Cal(n),
+                "a" => Mode3::A(Leaf(n)),
+                "b" => Mode3::B(Leaf(n)),
+                _ => return false,
+            };
+            true
+        } else {
+            false
+        }
+    }
+}
 
 // ---------------------------------------------------------------------------------------------
 // Token encoding helpers
@@ -177,14 +224,17 @@ fn esc_json(b: &[u8]) -> String {
 // Mock clock
 // ---------------------------------------------------------------------------------------------
 
+/// A 32-bit millisecond counter (it wraps after 49.7 days, as on a typical embedded target): the elapsed time of the
+/// history (first cell, monotone, what the traces report) plus a start offset (second cell) that lets a history begin
+/// shortly before the counter wraps.
 #[derive(Clone)]
-struct MockClock(Rc<Cell<u64>>);
+struct MockClock(Rc<Cell<u64>>, Rc<Cell<u64>>);
 
 impl embedded_time::Clock for MockClock {
-    type T = u64;
+    type T = u32;
     const SCALING_FACTOR: Fraction = Fraction::new(1, 1000);
     fn try_now(&self) -> Result<Instant<Self>, embedded_time::clock::Error> {
-        Ok(Instant::new(self.0.get()))
+        Ok(Instant::new((self.0.get().wrapping_add(self.1.get()) & 0xFFFF_FFFF) as u32))
     }
 }
 
@@ -899,6 +949,12 @@ impl<S: Fam> Driver<'_, S> {
 fn run_family<S: Fam>(bufsize: usize, events: &[&str]) -> String {
     let world = Rc::new(RefCell::new(World::new()));
     let time = Rc::new(Cell::new(0u64));
+    // `clk<start>` as the first event: the value of the 32-bit clock when the history begins
+    let (start, events) = match events.first().and_then(|e| e.strip_prefix("clk")).and_then(|v| v.parse::<u64>().ok()) {
+        Some(v) => (v, &events[1..]),
+        None => (0, events),
+    };
+    let offset = Rc::new(Cell::new(start));
     let mut buffer = vec![0u8; bufsize];
     let localhost: core::net::IpAddr = core::net::IpAddr::V4(core::net::Ipv4Addr::LOCALHOST);
     let config =
@@ -906,7 +962,7 @@ fn run_family<S: Fam>(bufsize: usize, events: &[&str]) -> String {
     let client = match Client::<S>::new(
         Stack(world.clone()),
         PREFIX,
-        MockClock(time.clone()),
+        MockClock(time.clone(), offset.clone()),
         config,
     ) {
         Ok(c) => c,
